@@ -46,10 +46,13 @@ static const char* AF_KEY[] = {"CLUSTAL", "CLUSTALW", "CLUSTAL_O", "CLUSTAL.1", 
 /* many-row members: more than 50 rows, gaps only in the last rows (51 / 52 / 64 / 101 / 130 rows; 1 or 2 gapped rows; nucleotide / protein) */
 static const int AF_MANYROWS[] = {50, 51, 52, 64, 101, 130};
 #define AF_NMANY (6 * 2 * 2)
+/* long-name members: names of 255 / 256 / 300 characters, read from an aligned FASTA file (the FASTA reader and writer keep
+   names of any length; Clustal, MSF and the array entry point cap them at 255, so these members are judged in FASTA only) */
+#define AF_NLONGNAME 6
 static uint64_t af_count(int tier)
 {
         (void)tier;
-        return af_count_run() + af_count_small() + AF_NLONG + AF_NPREFIX + AF_NKEY + AF_NMANY;
+        return af_count_run() + af_count_small() + AF_NLONG + AF_NPREFIX + AF_NKEY + AF_NMANY + AF_NLONGNAME;
 }
 
 struct af_member {
@@ -61,6 +64,7 @@ struct af_member {
         int width;
         int from_file;
         int valid;              /* 0: index denotes no alignment (e.g. all-gap column / no gap) */
+        int maxname;            /* longest name, set for the long-name members only */
 };
 
 static void af_name(int len, int special, int row, char* out)
@@ -151,6 +155,49 @@ static int af_build(uint64_t idx, long seed, const char* tmpdir, struct af_membe
                 }
                 kx_set_free(&in);
                 return a->valid;
+        }else if(idx >= af_count_run() + af_count_small() + AF_NLONG + AF_NPREFIX + AF_NKEY + AF_NMANY){
+                static const int NL[3] = {255, 256, 300};
+                int k = (int)(idx - af_count_run() - af_count_small() - AF_NLONG - AF_NPREFIX - AF_NKEY - AF_NMANY);
+                int nl = NL[k % 3], protein = k / 3, w = 70, i, j;
+                uint64_t st = 7700 + (uint64_t)k;
+                static char base[128];
+                char path[400];
+                FILE* f;
+                const char* alpha = protein ? "LKWAVDEGST" : "ACGT";
+                sh_random_seq(&st, alpha, w, base);
+                a->n = 3;
+                a->rows = malloc(sizeof(char*) * 3);
+                a->names = malloc(sizeof(char*) * 3);
+                for(i = 0; i < 3; i++){
+                        int l = i == 1 ? nl : 12;       /* the middle row carries the long name */
+                        a->rows[i] = malloc((size_t)w + 1);
+                        for(j = 0; j < w; j++){
+                                a->rows[i][j] = (j % 23 == 5 + i) ? '-' : base[j];
+                        }
+                        a->rows[i][w] = 0;
+                        a->names[i] = malloc((size_t)l + 1);
+                        for(j = 0; j < l; j++){
+                                a->names[i][j] = "abcdefghijklmnopqrstuvwxyz0123456789_"[(j * 7 + i) % 37];
+                        }
+                        a->names[i][l] = 0;
+                }
+                snprintf(path, sizeof path, "%s/af_longname.afa", tmpdir);
+                f = fopen(path, "w");
+                for(i = 0; i < 3; i++){
+                        fprintf(f, ">%s\n%s\n", a->names[i], a->rows[i]);
+                }
+                fclose(f);
+                a->width = w;
+                a->from_file = 1;
+                a->protein = protein;
+                a->maxname = nl;
+                if(kalign_read_input(path, &a->m, 1) != OK || !a->m){
+                        a->m = NULL;
+                        a->valid = 0;
+                        return -1;
+                }
+                a->valid = 1;
+                return 1;
         }else if(idx >= af_count_run() + af_count_small() + AF_NLONG + AF_NPREFIX + AF_NKEY){
                 int k = (int)(idx - af_count_run() - af_count_small() - AF_NLONG - AF_NPREFIX - AF_NKEY);
                 int rows = AF_MANYROWS[k % 6], ngapped = 1 + (k / 6) % 2, protein = k / 12, w = 24, i, j;
